@@ -20,6 +20,8 @@ KINDS = ["cell_number", "surface_number", "material_number", "transform_number",
          "surface_constant", "density", "importance", "volume", "title", "fraction",
          "tr_displacement", "universe_number", "material_assign",
          "cell_universe", "fill_universe", "lattice", "boundary", "thermal_law", "tr_degrees", "surface_transform"]
+# "placement" (problem.print_in_data_block[key] = bool) is implemented below but not drawn by default: where per-cell
+# data are written is property C09's subject, and its open defects would be re-found here
 
 
 def gen_program(rng, meta, n=None, kinds=None):
@@ -31,39 +33,54 @@ def gen_program(rng, meta, n=None, kinds=None):
     cur = {k: {x: x for x in used[k]} for k in used}   # original number -> current number
     member = dict(meta["universes"])                   # cell -> (original number of) its universe
 
-    def fresh(kind):
-        while True:
-            x = rng.choice([rng.randint(1, 99), rng.randint(100, 99999)])
-            if x not in used[kind]:
-                used[kind].add(x)
-                return x
+    freed = {k: [] for k in used}                      # numbers that an earlier renumbering gave up
+
+    def fresh(kind, orig=None):
+        """a new number for the object with original number orig: never one that is in use NOW; one time in
+        three a number that an earlier edit of the program freed ("new numbers not in use": 1 -> 10, then 2 -> 1)"""
+        old = cur[kind].get(orig)
+        x = None
+        free_now = [f for f in freed[kind] if f not in used[kind]]
+        if free_now and rng.random() < 0.35:
+            x = rng.choice(free_now)
+        while x is None:
+            y = rng.choice([rng.randint(1, 99), rng.randint(100, 99999)])
+            if y not in used[kind]:
+                x = y
+        used[kind].add(x)
+        if old is not None:
+            used[kind].discard(old)
+            freed[kind].append(old)
+            cur[kind][orig] = x
+        return x
 
     for _ in range(n):
         k = rng.choice(kinds)
         if k == "cell_number":
             o = rng.choice(meta["cells"])
-            new = fresh("cell")
+            new = fresh("cell", o)
             prog.append({"kind": k, "orig": o, "new": new})
         elif k == "surface_number":
             o = rng.choice(meta["surfaces"])
-            prog.append({"kind": k, "orig": o, "new": fresh("surface")})
+            prog.append({"kind": k, "orig": o, "new": fresh("surface", o)})
         elif k == "material_number" and meta["materials"]:
             o = rng.choice(meta["materials"])
-            prog.append({"kind": k, "orig": o, "new": fresh("material")})
+            prog.append({"kind": k, "orig": o, "new": fresh("material", o)})
         elif k == "transform_number" and meta["transforms"]:
             o = rng.choice(meta["transforms"])
-            prog.append({"kind": k, "orig": o, "new": fresh("transform")})
+            prog.append({"kind": k, "orig": o, "new": fresh("transform", o)})
         elif k == "universe_number" and meta["universes"]:
             o = rng.choice(sorted(set(meta["universes"].values())))
-            prog.append({"kind": k, "orig": o, "new": fresh("universe")})
+            prog.append({"kind": k, "orig": o, "new": fresh("universe", o)})
         elif k == "surface_constant":
             o = rng.choice(meta["surfaces"])
             nconst = len(meta["surface_constants"][o])
             prog.append({"kind": k, "orig": o, "index": rng.randrange(nconst),
-                         "value": rng.choice([2.5, 0.125, 12.0, 1.0e-3, -7.75, 300.0, 0.5, 64.0])})
+                         "value": rng.choice([2.5, 0.125, 12.0, 1.0e-3, -7.75, 300.0, 0.5, 64.0, 5.0000005, 2.5e-7,
+                                              -3.0000002, 63.9999996])})
         elif k == "density":
             o = rng.choice(meta["cells"])
-            prog.append({"kind": k, "orig": o, "value": rng.choice([1.5, 0.25, 10.0, 2.0e-2, 7.875]),
+            prog.append({"kind": k, "orig": o, "value": rng.choice([1.5, 0.25, 10.0, 2.0e-2, 7.875, 2.71828, 3.5, 1.0000004]),
                          "atom": rng.random() < 0.5})
         elif k == "importance":
             o = rng.choice(meta["cells"])
@@ -71,7 +88,7 @@ def gen_program(rng, meta, n=None, kinds=None):
                          "value": rng.choice([0.0, 1.0, 2.0, 4.0, 0.5, 8.0])})
         elif k == "volume":
             o = rng.choice(meta["cells"])
-            prog.append({"kind": k, "orig": o, "value": rng.choice([1.0, 2.5, 100.0, 0.125, 3.0e4])})
+            prog.append({"kind": k, "orig": o, "value": rng.choice([1.0, 2.5, 100.0, 0.125, 3.0e4, 2.0000004, 7.5e-7])})
         elif k == "title":
             prog.append({"kind": k, "value": rng.choice(["a new title", "Edited  title 2", "x"])})
         elif k == "fraction" and meta["materials"]:
@@ -83,11 +100,11 @@ def gen_program(rng, meta, n=None, kinds=None):
                 idx = rng.randrange(len(zs))
                 if zs.count(zs[idx]) == 1:
                     prog.append({"kind": k, "orig": o, "index": idx, "zaid": zs[idx],
-                                 "value": rng.choice([0.5, 0.25, 2.0, 1.0e-2, 0.75])})
+                                 "value": rng.choice([0.5, 0.25, 2.0, 1.0e-2, 0.75, 1.0000005, 4.0e-7])})
         elif k == "tr_displacement" and meta["transforms"]:
             o = rng.choice(meta["transforms"])
             prog.append({"kind": k, "orig": o, "index": rng.randrange(3),
-                         "value": rng.choice([1.5, -2.25, 10.0, 0.5])})
+                         "value": rng.choice([1.5, -2.25, 10.0, 0.5, 3.0000002, -2.5e-7])})
         elif k == "material_assign" and len(meta["materials"]) >= 1:
             o = rng.choice(meta["cells"])
             prog.append({"kind": k, "orig": o, "material": rng.choice(meta["materials"])})
@@ -115,6 +132,9 @@ def gen_program(rng, meta, n=None, kinds=None):
         elif k == "tr_degrees" and meta["transforms"]:
             o = rng.choice(meta["transforms"])
             prog.append({"kind": k, "orig": o, "value": rng.random() < 0.5})
+        elif k == "placement":
+            # where per-cell data are written: cell parameters or data-block vectors (the denotation is the same)
+            prog.append({"kind": k, "key": rng.choice(["imp", "vol", "u"]), "data_block": rng.random() < 0.5})
         elif k == "surface_transform" and meta["transforms"]:
             # give a surface a transform, another one, or none (del surface.transform)
             o = rng.choice(meta["surfaces"])
@@ -267,6 +287,11 @@ def apply(h, e):
             s.is_reflecting = False
             s.is_white_boundary = False
         return True, [("value", 1, s.number, ("boundary",), e["value"])]
+    if k == "placement":
+        if pr.print_in_data_block[e["key"].upper()] == bool(e["data_block"]):
+            return False, []
+        pr.print_in_data_block[e["key"].upper()] = bool(e["data_block"])
+        return True, [("placement", e["key"], bool(e["data_block"]))]
     if k == "surface_transform":
         s = h.surfaces[e["orig"]]
         if s.periodic_surface is not None:
